@@ -1,5 +1,6 @@
 mod common;
 mod fes;
+mod rt;
 
 fn main() {
     let args: Vec<String> = std::env::args().skip(1).collect();
@@ -8,9 +9,11 @@ fn main() {
         std::process::exit(3);
     }
     common::silence_panics();
+    common::watchdog::start(common::arg_u64(&args, "--hang-secs", 20));
     match (args[0].as_str(), args[1].as_str()) {
         ("fes", "replay") => fes::replay(&args[2..]),
         ("fes", "record") => fes::record(&args[2..]),
+        ("rt", "replay") => rt::replay(&args[2..]),
         _ => {
             eprintln!("unknown suite/mode");
             std::process::exit(3);
